@@ -18,6 +18,7 @@ mod c13l2;
 mod c11l2;
 mod c05l2;
 mod c03l2;
+mod c04h;
 mod c19;
 mod consts;
 mod core;
@@ -103,6 +104,7 @@ fn main() {
         "c11l2" => c11l2::run(&a),
         "c05l2" => c05l2::run(&a),
         "c03l2" => c03l2::run(&a),
+        "c04h" => c04h::run(&a),
         "c19" => c19::run(&a),
         "c06core" => coregen::run(&a, "C06", "C06core", &["c06"]),
         "c18core" => coregen::run(&a, "C18", "CoreMix", &["c18"]),
